@@ -578,6 +578,7 @@ def run_case(case: T.Dict[str, T.Any]) -> T.Dict[str, T.Any]:
                 _collect(out, step, case, ci, group[0], bf, af, status)
                 _lean_apply(out, recs, bf, af_raw, root)
                 _lean_kwcmd(out, group[0], recs, bf, af_raw, root, status, _case_of(case, ci))
+                _lean_srccmd(out, group[0], recs, bf, af_raw, root, status, _case_of(case, ci))
                 if case.get('flow') and status == 'ok' and not step['viol'] and group[0].get('type') == 'target' and \
                         group[0].get('operation') != 'target_rm':
                     # `info` is judged only where the real list does not depend on the configuration
@@ -858,6 +859,78 @@ def _lean_kwcmd(out: T.Dict[str, T.Any], cmd: T.Dict[str, T.Any], recs: T.List[T
     fields = [enc(bf[rel]), ','.join(str(x) for x in span), tree, '1' if cmd['operation'] == 'delete' else '0'] + kvs
     out['lean'].append(('kwcmd', 'kwcmd ' + '|'.join(fields), enc(af.get(rel, '')), case))
     out['tags'].append('kwcmd:' + cmd['operation'] + (':unchanged' if not works else ''))
+
+
+def _py_fold_domain(x: str) -> bool:
+    """the model folds case / reads digits for ASCII only (pathname_sort_key uses str.lower / str.isdigit)"""
+    return all(ord(c) < 128 or (c.lower() == c and not c.isdigit()) for c in x)
+
+
+def _lean_srccmd(out: T.Dict[str, T.Any], cmd: T.Dict[str, T.Any], recs: T.List[T.Dict[str, T.Any]], bf: T.Dict[str, str],
+                 af: T.Dict[str, str], root: str, status: str, case: T.Dict[str, T.Any]) -> None:
+    """a whole `target add / rm (extra) files` command through the model (Rewrite/SrcCommand.lean applySrc) for the literal-list
+    case in a single-directory project: the list node the real command worked on, AS PARSED from the BEFORE text, + the target's
+    files + the command -> appended / removed strings, pathname sort, print, splice; must equal the file the real command left"""
+    op = cmd.get('operation')
+    if cmd.get('type') != 'target' or op not in ('src_add', 'src_rm', 'extra_files_add', 'extra_files_rm') or status != 'ok':
+        return
+    if len(recs) != 1 or recs[0]['exc'] or len(bf) != 1 or 'meson.build' not in bf:
+        return
+    works = recs[0]['works']
+    try:
+        if len(works) != 1:
+            raise KeyError('works')
+        m_ = [int(x) for x in works[0]['meta'].split(',')]
+        if m_[0] != 0 or m_[1] != 0 or os.path.relpath(works[0]['file'], os.path.realpath(root)) != 'meson.build':
+            raise KeyError('work kind')
+        span = tuple(m_[2:6])
+        from mesonbuild.ast import AstIndentationGenerator
+        M = R.mp()
+        block = R.parse(bf['meson.build'])
+        block.accept(AstIndentationGenerator())
+        stmts = R.flat_statements(block)
+        node = None
+        for st in stmts:
+            for n_, _p in R.walk(st):
+                if isinstance(n_, (M.FunctionNode, M.ArrayNode)) and R._span(n_) == span:
+                    node = n_
+        tb = R.find_target(stmts, cmd['target'])
+        if node is None or tb is None:
+            raise KeyError('node')
+        what = 'src' if op.startswith('src') else 'extra'
+        if node is tb[1]:
+            if what == 'extra':
+                if op != 'extra_files_add' or R.kwarg(tb[1], 'extra_files') is not None:
+                    raise KeyError('extra on call')
+                kind = '2'
+            else:
+                kind = '1'
+        else:
+            kind = '0'
+        old = [] if kind == '2' else R.target_files(stmts, tb[1], what, set(), None, '')
+        files = [str(x) for x in cmd.get('sources', [])]
+        strs = [a_.value for a_ in node.args.arguments if isinstance(a_, M.StringNode)]
+        if any(o is R.UNKNOWN for o in old):
+            raise KeyError('unknown')
+        for x in files:
+            if x == '' or os.path.normpath(x) != x or x.startswith('/') or x.startswith('..'):
+                raise KeyError('path domain')
+        for x in list(old) + strs:
+            if x == '' or x.startswith('/') or x.startswith('..'):
+                raise KeyError('path domain')
+        if not all(_py_fold_domain(x) for x in files + list(old) + strs):
+            raise KeyError('fold domain')
+        tree = R.ser(node)
+    except (KeyError, R.Unsupported):
+        out['tags'].append('srccmd-not-modelled')
+        return
+    except Exception as e:
+        out['tags'].append('srccmd-not-modelled:' + type(e).__name__)
+        return
+    fields = [enc(bf['meson.build']), ','.join(str(x) for x in span), tree, kind, '1' if op.endswith('rm') else '0', enc('/r'),
+              enc_list(old), enc_list(files)]
+    out['lean'].append(('srccmd', 'srccmd ' + '|'.join(fields), enc(af.get('meson.build', '')), case))
+    out['tags'].append('srccmd:' + op + ':' + {'0': 'list', '1': 'target-call', '2': 'new-extra_files'}[kind])
 
 
 # ================================================================================================ case generation
@@ -1153,6 +1226,18 @@ def stream_small(ctx: Ctx) -> None:
         s = rand_text(rng, ws_alpha, 14)
         lines.append('post ' + enc(s)); exp.append(enc(re.sub(r'\s+\n', '\n', s))); what.append(('post', s))
         lines.append('strip ' + enc(s)); exp.append(enc(s.strip())); what.append(('strip', s))
+    # pathname_sort_key (the order `target add / rm` leaves the file names in): model's `<` on keys vs the real key function
+    from mesonbuild.mesonlib import pathname_sort_key
+    name_alpha = list('abAB019/._-x') + ['/', '1', 'a']
+    for _ in range(n):
+        x, y = rand_text(rng, name_alpha, 7), (rand_text(rng, name_alpha, 7) if rng.random() < 0.8 else None)
+        if y is None:
+            y = x.swapcase() if rng.random() < 0.5 else x + rng.choice(['', '0', '/a', 'b'])
+        try:
+            e_ = '1' if pathname_sort_key(x) < pathname_sort_key(y) else '0'
+        except Exception as e2:
+            e_ = 'ERR:' + type(e2).__name__
+        lines.append('sortkeylt ' + enc(x) + '|' + enc(y)); exp.append(e_); what.append(('sortkeylt', x + ' < ' + y))
     ans = ctx.driver('rewrite', lines)
     for a, e, (k, s) in zip(ans, exp, what):
         ctx.count()
@@ -1306,7 +1391,7 @@ def _absorb(ctx: Ctx, cases: T.List[T.Dict[str, T.Any]], results: T.List[T.Dict[
                 a = ','.join(x for x in a.strip().split(',') if x.isdigit() and int(x) in c['printed'])
             if a.strip() != expected.strip():
                 d = {'kind': 'lean-' + kind, 'model': a[:300], 'impl': expected[:300]}
-                if kind in ('same', 'listop', 'kwcmd'):
+                if kind in ('same', 'listop', 'kwcmd', 'srccmd'):
                     d['case'] = c
                 else:
                     d['before'] = c['before'][:600]
@@ -1379,7 +1464,7 @@ def search(ctx: Ctx, disagreements: T.List[dict]) -> None:
     epool = ['e%d.txt' % i for i in range(4)]
     for d in disagreements[:20]:
         src = d.get('input') if d.get('kind') in ('print', 'newdata') else None
-        if d.get('kind') in ('lean-same', 'lean-listop', 'lean-pmatch', 'lean-kwcmd'):
+        if d.get('kind') in ('lean-same', 'lean-listop', 'lean-pmatch', 'lean-kwcmd', 'lean-srccmd'):
             cases.append(_inflate(d['case']))
         if not src or not isinstance(src, str) or ';' in src[:3]:
             continue
